@@ -329,7 +329,7 @@ def scenarios(draw, *, max_machines=6, max_obs=4, max_nodes=6,
                     sc["delays"][f"{o['name']}:{n['id']}"] = draw(st.sampled_from([1, 1, 2, 3, 7]))
     if odd_names and draw(st.booleans()):
         # machine ids whose order in the configuration differs from their alphabetical order
-        pool = draw(st.sampled_from([[f"m{i}" for i in range(nm)], ['slow', 'fast', 'medium', 'gpu', 'aux', 'z9'][:nm],
+        pool = draw(st.sampled_from([[f"m{i}" for i in range(nm)], (['slow', 'fast', 'medium', 'gpu', 'aux', 'z9'] + [f"w{i}" for i in range(nm)])[:nm],
                                      [f"m{i}" for i in range(8, 8 + nm)]]))
         sc["mnames"] = list(draw(st.permutations(pool)))
     if abs_est and draw(st.booleans()):
